@@ -355,8 +355,9 @@ def secondary (a : SpMat) (nCol : Nat) (f : Fitted) (bipartite returnProbs retur
 inductive ModKind | dugue | newman | potts
 deriving DecidableEq, Repr
 
-/-- `self.modularity` (lower-cased by `__init__`) as one of the three known kinds -/
-def modKind? (s : String) : Option ModKind :=
+/-- `self.modularity.lower()` (done in `_pre_processing`) as one of the three known kinds -/
+def modKind? (s0 : String) : Option ModKind :=
+  let s := s0.toLower
   if s == "dugue" then some .dugue else if s == "newman" then some .newman
   else if s == "potts" then some .potts else none
 
